@@ -20,6 +20,33 @@ def clear_graph_accumulator():
         d[0].clear()
 
 
+SPELL_FIELDS = {
+    "streams": (("t_supply", ("degC", "C", "\u00b0C")), ("t_target", ("degC", "\u00b0C", "C")), ("heat_flow", ("kW", "kJ/s")), ("dt_cont", ("degC", "K")), ("htc", ("kW/m2/K", "kW/m^2/degC"))),
+    "utilities": (("t_supply", ("degC", "C", "\u00b0C")), ("t_target", ("\u00b0C", "degC", "C")), ("dt_cont", ("degC", "K")), ("htc", ("kW/m2/K", "kW/m^2/degC")), ("price", ("$/MWh", "EUR/MWh")), ("heat_flow", ("kW", "kJ/s"))),
+}
+
+
+def apply_spelling(payload: dict, pattern) -> dict:
+    """The same problem with each number independently spelled as a bare float or as a value-with-unit object.
+
+    ``pattern`` is a generated list of small integers consumed cyclically, field by field: 0 = bare number, k > 0 = wrapped
+    with the k-th unit string of that field.  Missing (None) values stay missing.  The reference side always works
+    on the bare numbers of the case; only the payload handed to the library is re-spelled."""
+    if not pattern:
+        return payload
+    i = 0
+    for key, fields in SPELL_FIELDS.items():
+        for x in payload.get(key) or []:
+            for f, units in fields:
+                if x.get(f) is None or isinstance(x.get(f), dict):
+                    continue
+                k = pattern[i % len(pattern)]
+                i += 1
+                if k:
+                    x[f] = {"value": x[f], "units": units[(k - 1) % len(units)]}
+    return payload
+
+
 def run_service(case: dict, project: str = "Site", full: bool = True, clear: bool = True):
     """(True, (TargetOutput, master Zone)) or (False, exception signature)."""
     from OpenPinch.main import pinch_analysis_service
@@ -27,6 +54,7 @@ def run_service(case: dict, project: str = "Site", full: bool = True, clear: boo
     if clear:
         clear_graph_accumulator()
     payload = copy.deepcopy({k: v for k, v in case.items() if k in ("streams", "utilities", "options", "zone_tree") and v is not None})
+    payload = apply_spelling(payload, case.get("spelling"))
     return call_sut(pinch_analysis_service, payload, project, full)
 
 
